@@ -458,7 +458,7 @@ void pt_fld(int *imi,
       use original input to check which group to affiliate with 0
       Soring changes first in IMD to assure symetry in adjustment.
   */
-  for ( j = 0; j < 5; j++ ) {
+  for ( j = 0; j < nspec; j++ ) {
     for ( i = 0; i < nspec; i++ )
       imd[i] = imo[i];
     for ( jl = 0; jl < nspec; jl++ ) {
